@@ -8,7 +8,7 @@ def optStr (j : Json) (k : String) : Option String :=
   | _ => none
 
 def outcomeName : Outcome → String
-  | .ok => "ok" | .keyError => "KeyError" | .typeError => "TypeError"
+  | .ok => "ok" | .keyError => "KeyError" | .typeError => "TypeError" | .fileNotFound => "FileNotFoundError"
 
 structure St where
   fs : FS
